@@ -181,7 +181,7 @@ fn main() {
             mdwh::elfcases::live_mappings(&workdir, &mut tr);
         }
         "mkelf" => {
-            // mkelf --kind elf|non_elf|elf_corrupt|elf_noid|elf_nosoname --soname NAME --idseed N   (writes to --out)
+            // mkelf --kind elf|non_elf|elf_corrupt|elf_undyn|elf_noid|elf_zeroid|elf_nosoname --soname NAME --idseed N   (writes to --out)
             let kind = flag_str(&args.extra, "--kind").unwrap_or_else(|| "elf".into());
             let mut spec = mdwh::elfgen::Spec::default();
             if let Some(sn) = flag_str(&args.extra, "--soname") { spec.soname = if sn.is_empty() { None } else { Some(sn) }; }
@@ -192,6 +192,11 @@ fn main() {
             if kind == "elf_zeroid" { spec.id_ph = vec![0; 20]; }
             if kind == "elf_nosoname" { spec.soname = None; }
             let mut b = mdwh::elfgen::build(&spec);
+            if kind == "elf_undyn" {
+                // the dynamic segment / section ends right after its last real entry: no DT_NULL within the declared size
+                let dynent = 16;
+                for f in ["ph2.p_filesz", "ph2.p_memsz", "sh4.sh_size"] { mdwh::elfgen::set_field(&mut b, f, 3 * dynent); }
+            }
             if kind == "elf_corrupt" {
                 mdwh::elfgen::set_field(&mut b, "e_phoff", 0);
                 mdwh::elfgen::set_field(&mut b, "sh3.sh_offset", u64::MAX);
